@@ -30,6 +30,7 @@ type Ev struct {
 	ID       int           `json:"id"`
 	Key      string        `json:"key"`            // "" = field absent -> default key
 	Lvl      string        `json:"lvl,omitempty"`  // rule condition field
+	Zone     string        `json:"zone,omitempty"` // second rule condition field
 	Dist     string        `json:"dist,omitempty"` // distribution field
 	TimeOff  time.Duration `json:"time_off"`       // event time = now + offset
 	TimeKind string        `json:"time_kind"`      // ok | garbage | absent
@@ -41,6 +42,7 @@ type RuleCfg struct {
 	Limit int64  `json:"limit"`
 	Kind  string `json:"kind"`
 	Lvl   string `json:"lvl"`
+	Zone  string `json:"zone,omitempty"` // second condition of the rule (field "azone", sorting before "lvl"): both must match
 	// DistRatio: the rule has its own limit_distribution (same value groups as Cfg.DistVals, these ratios)
 	DistRatio []float64 `json:"dist_ratios,omitempty"`
 }
@@ -80,6 +82,9 @@ func (h *H) Gen(rng *rand.Rand, tier, prop string) core.Cfg {
 	lvls := []string{"err", "warn"}
 	for i := 0; i < nr; i++ {
 		rc := RuleCfg{Kind: core.Pick(rng, "count", "size"), Lvl: lvls[i]}
+		if core.Chance(rng, 0.4) {
+			rc.Zone = core.Pick(rng, "z1", "err", "warn") // also values that the other condition uses
+		}
 		if rc.Kind == "count" {
 			rc.Limit = int64(core.Between(rng, 0, 4))
 		} else {
@@ -111,6 +116,7 @@ func (h *H) Gen(rng *rand.Rand, tier, prop string) core.Cfg {
 		e := Ev{ID: i + 1, Key: keys[rng.IntN(len(keys))], Size: core.Between(rng, 5, 60)}
 		if nr > 0 && core.Chance(rng, 0.4) {
 			e.Lvl = lvls[rng.IntN(nr)]
+			e.Zone = core.Pick(rng, "", "z1", "z1", "err", "warn", "z2")
 		}
 		if c.DistVals != nil {
 			e.Dist = core.Pick(rng, "a", "b", "c", "other", "")
@@ -214,7 +220,11 @@ func (h *H) Run(cc core.Cfg, sim *simrt.Sim) *core.Outcome {
 		}
 		var rules []string
 		for _, r := range cfg.Rules {
-			rules = append(rules, fmt.Sprintf(`{"limit":%d,"limit_kind":%q,"conditions":{"lvl":%q}%s}`, r.Limit, r.Kind, r.Lvl, distJSON(r.DistRatio)))
+			cond := fmt.Sprintf(`{"lvl":%q}`, r.Lvl)
+			if r.Zone != "" {
+				cond = fmt.Sprintf(`{"lvl":%q,"azone":%q}`, r.Lvl, r.Zone)
+			}
+			rules = append(rules, fmt.Sprintf(`{"limit":%d,"limit_kind":%q,"conditions":%s%s}`, r.Limit, r.Kind, cond, distJSON(r.DistRatio)))
 		}
 		dist := distJSON(cfg.DistRatio)
 		window := time.Duration(cfg.Buckets) * cfg.Interval
@@ -250,6 +260,9 @@ func (h *H) Run(cc core.Cfg, sim *simrt.Sim) *core.Outcome {
 					if e.Lvl != "" {
 						fmt.Fprintf(&sb, `,"lvl":%q`, e.Lvl)
 					}
+					if e.Zone != "" {
+						fmt.Fprintf(&sb, `,"azone":%q`, e.Zone)
+					}
 					if e.Dist != "" {
 						fmt.Fprintf(&sb, `,"dist":%q`, e.Dist)
 					}
@@ -268,7 +281,7 @@ func (h *H) Run(cc core.Cfg, sim *simrt.Sim) *core.Outcome {
 					}
 					ob.rule = len(cfg.Rules)
 					for i, r := range cfg.Rules {
-						if e.Lvl == r.Lvl {
+						if e.Lvl == r.Lvl && (r.Zone == "" || e.Zone == r.Zone) {
 							ob.rule = i
 							break
 						}
